@@ -126,9 +126,8 @@ class LenaSplit(object):
         return context
 
     def _set_context(self, context):
-        if not context:
-            # every sequence was already initialised with {}.
-            return
+        # an empty context is set too: the sequences may have received
+        # a non-empty one before (see LenaSequence._set_context).
         for seq in self._seqs:
             if hasattr(seq, "_set_context"):
                 # can raise LenaKeyError if some context
